@@ -166,7 +166,7 @@ func (dt DateTime) TryEqual(input Any) (bool, bool) {
 	if !ok {
 		return false, true
 	}
-	if dt.l == val.l {
+	if dt.l == val.l && comparesAsInstants(dt.l) {
 		return dt.dateTime.Equal(val.dateTime), true
 	}
 
@@ -191,6 +191,14 @@ func (dt DateTime) TryEqual(input Any) (bool, bool) {
 	return false, false
 }
 
+// comparesAsInstants reports whether two values of the layout l can be compared as
+// instants. At hour precision an offset with minutes (+05:30) moves the instant without
+// moving any component down to the hour, so those values are compared component-wise
+// after offset normalisation, like values whose layouts differ.
+func comparesAsInstants(l layout) bool {
+	return l != dtHourLayoutTZ
+}
+
 // Less returns true if the value of dt is less than input.(DateTime).
 // Compares component by component, and returns an error if there is a
 // precision mismatch. If input is not a Date, returns an error.
@@ -199,7 +207,7 @@ func (dt DateTime) Less(input Any) (Boolean, error) {
 	if !ok {
 		return false, fmt.Errorf("%w, %T, %T", ErrTypeMismatch, dt, input)
 	}
-	if dt.l == val.l {
+	if dt.l == val.l && comparesAsInstants(dt.l) {
 		return Boolean(dt.dateTime.Before(val.dateTime)), nil
 	}
 
